@@ -81,4 +81,164 @@ def TmSpec (tm : List Nat → List Nat → Nat → List Nat) : Prop :=
   ∀ (a b : List Nat) (n : Nat), Limbs a → Limbs b → b.length = n → 1 ≤ n → 2 * n - 1 ≤ a.length →
     val (tm a b n) = mpW n a b ∧ Limbs (tm a b n) ∧ (tm a b n).length = n + 2
 
+/-! ### the specification: splitting and bound -/
+
+theorem val_take_add : ∀ (k : Nat) (l : List Nat) (r : Nat),
+    val (l.take (k + r)) = val (l.take k) + B ^ k * val ((l.drop k).take r)
+  | 0, l, r => by simp
+  | k + 1, [], r => by simp
+  | k + 1, x :: xs, r => by
+    have e : k + 1 + r = (k + r) + 1 := by omega
+    rw [e]
+    simp only [List.take_succ_cons, List.drop_succ_cons, val_cons, val_take_add k xs r, pow_succ]
+    ring
+
+/-- splitting MP by diagonals: the first k diagonals, then r more on the operand advanced by k (`ap += k`) -/
+theorem mpW_hsplit (k r : Nat) (a : List Nat) : ∀ b : List Nat,
+    mpW (k + r) a b = mpW k a b + B ^ k * mpW r (a.drop k) b
+  | [] => by simp [mpW]
+  | b0 :: bs => by
+    simp only [mpW, win, mpW_hsplit k r a bs, val_take_add k _ r, List.drop_drop]
+    rw [Nat.add_comm k bs.length]
+    ring
+
+/-- splitting MP by rows: the high rows `hi` on a, the low rows on the operand advanced by |hi| (`ap += |hi|`) -/
+theorem mpW_vsplit (rn : Nat) (a hi : List Nat) : ∀ lo : List Nat,
+    mpW rn a (lo ++ hi) = mpW rn (a.drop hi.length) lo + mpW rn a hi
+  | [] => by simp [mpW]
+  | b0 :: bs => by
+    simp only [List.cons_append, mpW, win, mpW_vsplit rn a hi bs, List.length_append, List.drop_drop]
+    rw [Nat.add_comm bs.length hi.length]
+    ring
+
+theorem val_lt_pow (l : List Nat) (h : Limbs l) (n : Nat) (hn : l.length ≤ n) : val l < B ^ n :=
+  lt_of_lt_of_le (val_lt l h) (Nat.pow_le_pow_right B_pos hn)
+
+/-- MP of n rows of rn diagonals is below n·B^(rn+1): it fits rn + 2 limbs while n ≤ B, and its top limb is below n -/
+theorem mpW_le (rn : Nat) (a : List Nat) (ha : Limbs a) : ∀ b : List Nat, Limbs b →
+    mpW rn a b + b.length * B ^ rn ≤ b.length * B ^ (rn + 1)
+  | [], _ => by simp [mpW]
+  | b0 :: bs, hb => by
+    have ⟨h0, hbs⟩ := Limbs_cons.mp hb
+    have ih := mpW_le rn a ha bs hbs
+    have hw : val (win a bs.length rn) < B ^ rn := val_lt_pow _ (win_limbs ha _ _) rn (by simp [win])
+    simp only [mpW, List.length_cons, pow_succ] at *
+    have : b0 * val (win a bs.length rn) + B ^ rn ≤ B ^ rn * B := by
+      have h1 : b0 * val (win a bs.length rn) ≤ (B - 1) * B ^ rn :=
+        Nat.mul_le_mul (by omega) (le_of_lt hw)
+      have hB := B_pos
+      obtain ⟨c, hc⟩ : ∃ c, B = c + 1 := ⟨B - 1, by omega⟩
+      rw [hc] at h1 ⊢
+      simp only [Nat.add_sub_cancel] at h1
+      nlinarith
+    nlinarith
+
+/-! ### add-back of the two saved limbs -/
+
+/-- the two limbs above the first k of a (k+2)-limb vector: `t0 = rp[0], t1 = rp[1]` after `rp += k` -/
+theorem top2 : ∀ (k : Nat) (l : List Nat), l.length = k + 2 → Limbs l →
+    val l = val (l.take k) + B ^ k * (l.getD k 0 + B * l.getD (k + 1) 0) ∧ l.getD k 0 < B ∧ l.getD (k + 1) 0 < B ∧
+    (l.take k).length = k
+  | 0, [x, y], _, h => by
+    have ⟨hx, hy⟩ := Limbs_cons.mp h
+    have ⟨hy, _⟩ := Limbs_cons.mp hy
+    simp [hx, hy]
+  | k + 1, z :: l, hl, h => by
+    have ⟨hz, hl'⟩ := Limbs_cons.mp h
+    obtain ⟨e, h0, h1, h2⟩ := top2 k l (by simpa using hl) hl'
+    simp only [List.take_succ_cons, val_cons, List.getD_cons_succ, pow_succ, List.length_cons, h2]
+    refine ⟨?_, h0, h1, trivial⟩
+    rw [e]; ring
+
+theorem addc_limb (x y : Nat) (hx : x < B) (hy : y < B) :
+    (x + y) % B + B * boolToNat (decide ((x + y) % B < x)) = x + y ∧ (x + y) % B < B := by
+  rw [boolToNat_decide]
+  simp only [B_eq] at *
+  split <;> omega
+
+/-- ADDC_LIMB + MPN_INCR_U: the region grows by t0 + B·t1, with mpn_add_1's carry c made explicit -/
+theorem addback_val (r0 r1 : Nat) (rs : List Nat) (t0 t1 : Nat) (h : Limbs (r0 :: r1 :: rs)) (h0 : t0 < B) (h1 : t1 + 1 < B) :
+    ∃ c, val (addback (r0 :: r1 :: rs) t0 t1) + B ^ (rs.length + 2) * c = val (r0 :: r1 :: rs) + t0 + B * t1 ∧
+      Limbs (addback (r0 :: r1 :: rs) t0 t1) ∧ (addback (r0 :: r1 :: rs) t0 t1).length = rs.length + 2 := by
+  have ⟨hr0, hr⟩ := Limbs_cons.mp h
+  obtain ⟨e, wl⟩ := addc_limb r0 t0 hr0 h0
+  have hcy : boolToNat (decide ((r0 + t0) % B < r0)) ≤ 1 := boolToNat_le _
+  have hm : (t1 + boolToNat (decide ((r0 + t0) % B < r0))) % B = t1 + boolToNat (decide ((r0 + t0) % B < r0)) :=
+    Nat.mod_eq_of_lt (by omega)
+  obtain ⟨av, _, al, an⟩ := add_1_val' r1 rs (t1 + boolToNat (decide ((r0 + t0) % B < r0))) hr (by omega)
+  refine ⟨(add_1 (r1 :: rs) (t1 + boolToNat (decide ((r0 + t0) % B < r0)))).2, ?_, ?_, ?_⟩
+  · simp only [addback, hm, val_cons, pow_succ] at *
+    linear_combination e + B * av
+  · simp only [addback, hm]; exact Limbs_cons.mpr ⟨wl, al⟩
+  · simp only [addback, hm, List.length_cons, an]
+
+/-! ### combining chunks -/
+
+theorem eq_zero_of_mul_lt (P c M : Nat) (h1 : P * c ≤ M) (h2 : M < P) : c = 0 := by
+  rcases Nat.eq_zero_or_pos c with h | h
+  · exact h
+  · exfalso
+    have := Nat.mul_le_mul_left P h
+    omega
+
+/-- MP (any number of diagonals) fits two limbs more than its diagonals while bn ≤ B -/
+theorem mpW_lt (rn : Nat) (a b : List Nat) (ha : Limbs a) (hb : Limbs b) (hB : b.length ≤ B) :
+    mpW rn a b < B ^ (rn + 2) := by
+  have h := mpW_le rn a ha b hb
+  have hp : 0 < B ^ rn := Nat.pow_pos B_pos
+  have : b.length * B ^ (rn + 1) ≤ B * B ^ (rn + 1) := Nat.mul_le_mul_right _ hB
+  rcases Nat.eq_zero_or_pos b.length with h0 | h0
+  · have : b = [] := List.eq_nil_of_length_eq_zero h0
+    subst this; simp only [mpW]; exact Nat.pow_pos B_pos
+  · have : 0 < b.length * B ^ rn := Nat.mul_pos h0 hp
+    simp only [pow_succ] at *
+    nlinarith
+
+/-- the top limb of MP in rn + 2 limbs is below the number of rows -/
+theorem mpW_top (rn : Nat) (a b : List Nat) (ha : Limbs a) (hb : Limbs b) (hbn : 1 ≤ b.length) (lo t : Nat)
+    (h : lo + B ^ (rn + 1) * t = mpW rn a b) : t < b.length := by
+  have h' := mpW_le rn a ha b hb
+  have hp : 0 < b.length * B ^ rn := Nat.mul_pos hbn (Nat.pow_pos B_pos)
+  have : B ^ (rn + 1) * t < B ^ (rn + 1) * b.length := by
+    rw [Nat.mul_comm _ b.length]; omega
+  exact Nat.lt_of_mul_lt_mul_left this
+
+/-- one step of a wide region: the next chunk's MP with the two saved limbs added back continues the result exactly -/
+theorem hcomb (a b pre cur new : List Nat) (k r : Nat) (ha : Limbs a) (hb : Limbs b) (hbn : 1 ≤ b.length)
+    (hB : b.length < B) (hcur : Limbs cur) (hcl : cur.length = k + 2)
+    (hv : val (pre ++ cur) = mpW (pre.length + k) a b)
+    (hnew : val new = mpW r (a.drop (pre.length + k)) b) (hnl : Limbs new) (hnn : new.length = r + 2) :
+    val (pre ++ cur.take k ++ addback new (cur.getD k 0) (cur.getD (k + 1) 0)) = mpW (pre.length + k + r) a b ∧
+    Limbs (addback new (cur.getD k 0) (cur.getD (k + 1) 0)) ∧
+    (addback new (cur.getD k 0) (cur.getD (k + 1) 0)).length = r + 2 := by
+  obtain ⟨e, h0, h1, h2⟩ := top2 k cur hcl hcur
+  generalize cur.getD k 0 = t0 at *
+  generalize cur.getD (k + 1) 0 = t1 at *
+  rw [val_append, e] at hv
+  have ht1 : t1 < b.length := by
+    apply mpW_top (pre.length + k) a b ha hb hbn (val pre + B ^ pre.length * (val (cur.take k) + B ^ k * t0)) t1
+    rw [← hv]; simp only [pow_add, pow_succ]; ring
+  match new, hnn, hnl, hnew with
+  | r0 :: r1 :: rs, hnn, hnl, hnew =>
+    have hrs : rs.length = r := by simpa using hnn
+    obtain ⟨c, av, al, an⟩ := addback_val r0 r1 rs t0 t1 hnl h0 (by omega)
+    rw [hrs] at av an
+    have hs := mpW_hsplit (pre.length + k) r a b
+    have hlt := mpW_lt (pre.length + k + r) a b ha hb (by omega)
+    have key : val pre + B ^ pre.length * val (cur.take k) +
+        B ^ (pre.length + k) * (val (addback (r0 :: r1 :: rs) t0 t1) + B ^ (r + 2) * c) = mpW (pre.length + k + r) a b := by
+      rw [hs, ← hv, ← hnew, av]; simp only [pow_add]; ring
+    have hc : c = 0 := by
+      apply eq_zero_of_mul_lt (B ^ (pre.length + k + r + 2)) c _ _ hlt
+      rw [← key]
+      have : B ^ (pre.length + k + r + 2) * c = B ^ (pre.length + k) * (B ^ (r + 2) * c) := by
+        simp only [pow_add]; ring
+      rw [this, Nat.mul_add]
+      omega
+    subst hc
+    refine ⟨?_, al, an⟩
+    rw [← key]
+    simp only [val_append, List.length_append, h2, pow_add]
+    ring
+
 end Mpir.MulMid
